@@ -278,6 +278,9 @@ def body(task):
     k.log("body-start", x=x, attempt=att, done=W.marker_exists(x, "done"))
     for f in W.on_body_start:
         f(x, proc)
+    for fn in W.scn["tasks"][x].get("stagefiles") or []:
+        # the task's own stage files in its job directory (names that end like the runner's markers)
+        (Path(proc.cwd) / fn).write_text("stage\n")
     try:
         # the body's duration: a number of scheduling points (workload knob), each of
         # which is also a point where a signal can arrive
